@@ -303,11 +303,45 @@ def gen_reserved():
     write_if_changed("Reserved.lean", "\n".join(L) + "\n")
 
 
+# ------------------------------------------------------------------- wasm format driver
+def gen_wasm():
+    """blots-wasm is a cdylib returning JsValue, so its `format_blots` cannot be called natively.
+    Re-emit its body (three JS-specific rewrites) as harness/src/gen_wasm_format.rs, so the
+    harness always runs the statement loop the working tree contains."""
+    src = read("blots-wasm/src/lib.rs")
+    m = need(re.search(r"pub fn format_blots\(source: &str, max_columns: Option<usize>\) -> Result<JsValue, JsError> \{", src),
+             "blots-wasm/src/lib.rs: format_blots signature")
+    body = fn_body(src, r"pub fn format_blots\(source: &str, max_columns: Option<usize>\) -> Result<JsValue, JsError> \{", "lib.rs: format_blots body")
+    body = re.sub(r"JsError::new\(&format!\(", "(format!(", body)
+    body = re.sub(r'JsError::new\("([^"]*)"\)', r'"\1".to_string()', body)
+    b2 = re.sub(r"\n\s*//[^\n]*\n\s*let serializer = serde_wasm_bindgen::Serializer::json_compatible\(\);\s*Ok\(result\.serialize\(&serializer\)\?\)",
+                "\n    Ok(result)", body)
+    if b2 == body:
+        b2 = re.sub(r"let serializer = serde_wasm_bindgen::Serializer::json_compatible\(\);\s*Ok\(result\.serialize\(&serializer\)\?\)", "Ok(result)", body)
+    body = b2
+    for bad in ("JsError", "JsValue", "serde_wasm_bindgen", "serializer"):
+        if bad in body:
+            raise Fail("blots-wasm/src/lib.rs: format_blots uses %s in a way the translator does not know" % bad)
+    text = ("// GENERATED by tools/gen_tables.py from /repo/blots-wasm/src/lib.rs (format_blots) - do not edit.\n"
+            "#![allow(unused_imports, clippy::all)]\n"
+            "use blots_core::ast::{Expr, Spanned};\n"
+            "use blots_core::expressions::pairs_to_expr_with_comments;\n"
+            "use blots_core::formatter::{format_expr, join_statements_with_spacing};\n"
+            "use blots_core::parser::{Rule, get_pairs};\n\n"
+            "pub fn format_blots(source: &str, max_columns: Option<usize>) -> Result<String, String> {" + body + "}\n")
+    hp = os.path.join(os.path.dirname(os.path.abspath(__file__)), "..", "harness", "src", "gen_wasm_format.rs")
+    old = open(hp, encoding="utf-8").read() if os.path.exists(hp) else None
+    if old != text:
+        with open(hp, "w", encoding="utf-8") as f:
+            f.write(text)
+
+
 def main():
     try:
         gen_prec()
         gen_builtins()
         gen_reserved()
+        gen_wasm()
         try:
             import gen_units
             gen_units.gen(read, write_if_changed, lean_str, Fail, fn_body)
